@@ -625,9 +625,17 @@ def compute_mro(cls:'Class') -> Sequence[Union['Class', str]]:
         """
         Like L{Class.baseobjects} but fallback to the expanded name if the base is not resolved to a L{Class} object.
         """
-        for s,b in zip(o.bases, o.baseobjects):
+        rawbases = o.rawbases if len(o.rawbases) == len(o.bases) else ()
+        for i, (s,b) in enumerate(zip(o.bases, o.baseobjects)):
             if isinstance(b, Class):
                 yield b
+            elif (s in ('typing.Generic', 'typing_extensions.Generic') and rawbases
+                  and isinstance(rawbases[i][1], ast.Subscript)
+                  and any(isinstance(n, ast.Subscript) for _,n in rawbases[i+1:])):
+                # Python removes 'Generic[T]' from the bases when it is followed by
+                # another subscripted generic base, see typing._GenericAlias.__mro_entries__():
+                # 'Generic' then comes from that base only.
+                continue
             else:
                 yield s
 
